@@ -173,7 +173,7 @@ func (e *eng) envCase(r layRow, i int) {
 	} else {
 		y.WriteString("    variations:\n      - VN: \"1\"\n")
 	}
-	y.WriteString("    command:\n      - echo \"OBS$VN X=[$X] T=[$TASK_NAME] U=[$UNTOUCHED] lx=[$x] ltn=[$task_name] px=[$(printenv X)]\"\n")
+	y.WriteString("    command:\n      - echo \"OBS$VN X=[$X] T=[$TASK_NAME] U=[$UNTOUCHED] lx=[$x] ltn=[$task_name] px=[$(printenv X)] pw=[$(printenv PWD)]\"\n")
 	// the stage is named differently from its task in every other row: TASK_NAME stays the task's name
 	if r.Ord == "asc" {
 		y.WriteString("pipelines:\n  p:\n    - name: stage-one\n      task: t\n")
@@ -196,7 +196,7 @@ func (e *eng) envCase(r layRow, i int) {
 	}
 	// names are case-sensitive: parent variables that differ from X / TASK_NAME only in case are other
 	// variables and pass through like any
-	extra = append(extra, "x=lower-x", "task_name=lower-tn")
+	extra = append(extra, "x=lower-x", "task_name=lower-tn", "PWD=/parent/says/pwd") // (PWD: a name like any other for a started program)
 	// make sure X is not inherited from the harness's own environment
 	os.Unsetenv("X")
 	res := e.run(d, extra, "--raw", target)
@@ -223,11 +223,11 @@ func (e *eng) envCase(r layRow, i int) {
 			wantLater = fmt.Sprintf("v%d", r.Later)
 		}
 		obs2, _ := find(res.Stdout, "OBS2 ")
-		if w2 := fmt.Sprintf("X=[%s] T=[t] U=[pass=through=x] lx=[lower-x] ltn=[lower-tn] px=[%s]", wantLater, wantLater); obs2 != w2 {
+		if w2 := fmt.Sprintf("X=[%s] T=[t] U=[pass=through=x] lx=[lower-x] ltn=[lower-tn] px=[%s] pw=[/parent/says/pwd]", wantLater, wantLater); obs2 != w2 {
 			add("value-of-an-earlier-variation-visible", fmt.Sprintf("in the second variation (which does not define X) the command saw %q, model %q", obs2, w2))
 		}
 	}
-	wantLine := fmt.Sprintf("X=[%s] T=[t] U=[pass=through=x] lx=[lower-x] ltn=[lower-tn] px=[%s]", want, want)
+	wantLine := fmt.Sprintf("X=[%s] T=[t] U=[pass=through=x] lx=[lower-x] ltn=[lower-tn] px=[%s] pw=[/parent/says/pwd]", want, want)
 	if obs != wantLine {
 		kind := "wrong-level-wins"
 		if !strings.Contains(obs, "T=[t]") {
@@ -364,7 +364,7 @@ func (e *eng) varCase(r layRow, i int) {
 	}
 	// the task's hooks resolve the variable like its commands do
 	y.WriteString("    before:\n      - echo \"HOOKB w=[{{.w}}]\"\n    after:\n      - echo \"HOOKA w=[{{.w}}]\"\n")
-	fmt.Fprintf(&y, "    command:\n      - echo first >> %s\n      - echo \"OBS w=[{{.w}}] root=[{{.Root}}] tmp=[{{.TempDir}}] args=[{{.Args}}] list={{.ArgsList}} o=[{{.other}}] e=[{{.emp}}]\"\n", filepath.Join(d, "trace"))
+	fmt.Fprintf(&y, "    command:\n      - echo first >> %s\n      - echo \"OBS w=[{{.w}}] root=[{{.Root}}] tmp=[{{.TempDir}}] args=[{{.Args}}] list={{.ArgsList}} o=[{{.other}}] e=[{{.emp}}] tk=[{{.Task}}]\"\n", filepath.Join(d, "trace"))
 	y.WriteString("pipelines:\n  p:\n    - task: t\n")
 	if r.has(4) {
 		fmt.Fprintf(&y, "      variables:\n        w: %s\n", yq(v(4)))
@@ -376,6 +376,8 @@ func (e *eng) varCase(r layRow, i int) {
 	}
 	// one --set is one assignment, whatever its value contains (commas, further NAME= pairs, '=')
 	args = append(args, "--set", "other=a,w=hijacked=1", "--set", "emp=") // (and an assignment of the empty value)
+	// a user variable may be called like the first segment of a built-in dotted name (Task.Name, ...)
+	args = append(args, "--set", "Task=user-variable-called-Task")
 	if r.Mode == "stage" {
 		// the pipeline, then a direct run of the same task: the stage's variables must be gone
 		args = append(args, "p", "t")
@@ -406,7 +408,7 @@ func (e *eng) varCase(r layRow, i int) {
 		}
 	}
 	line := func(x int) string {
-		return fmt.Sprintf("w=[v%d%s] root=[%s] tmp=[%s] args=[] list=[] o=[a,w=hijacked=1] e=[]", x, varTail, dd, os.TempDir())
+		return fmt.Sprintf("w=[v%d%s] root=[%s] tmp=[%s] args=[] list=[] o=[a,w=hijacked=1] e=[] tk=[user-variable-called-Task]", x, varTail, dd, os.TempDir())
 	}
 	var want []string
 	wantFail := false
